@@ -6,7 +6,7 @@ LL = 'bluetoe/link_layer/include/bluetoe/link_layer.hpp'
 CLS = r'class link_layer\s*:'
 T = r'template < class Server, template < std::size_t, std::size_t, class > class ScheduledRadio, typename \.\.\. Options >\s*'
 Q = r'link_layer< Server, ScheduledRadio, Options\.\.\. >::'
-OPS = ['LL_CONNECTION_UPDATE_IND', 'LL_CHANNEL_MAP_REQ', 'LL_TERMINATE_IND', 'LL_UNKNOWN_RSP', 'LL_FEATURE_REQ', 'LL_FEATURE_RSP', 'LL_VERSION_IND', 'LL_REJECT_IND', 'LL_CONNECTION_PARAM_REQ',
+OPS = ['LL_PHY_REQ', 'LL_PHY_UPDATE_IND', 'LL_CONNECTION_UPDATE_IND', 'LL_CHANNEL_MAP_REQ', 'LL_TERMINATE_IND', 'LL_UNKNOWN_RSP', 'LL_FEATURE_REQ', 'LL_FEATURE_RSP', 'LL_VERSION_IND', 'LL_REJECT_IND', 'LL_CONNECTION_PARAM_REQ',
        'LL_REJECT_EXT_IND', 'LL_PING_REQ', 'LL_PING_RSP', 'LL_VERSION_NR', 'LL_VERSION_40', 'connection_instant_passed', 'll_control_pdu_code']
 def _fill(m):
     return '{ const uint8_t fill_tmp[] = { %s }; ll_fill( write, fill_tmp, sizeof( fill_tmp ) ); }' % ' '.join(m.group(1).split())
@@ -24,7 +24,7 @@ PRE = [
     (r'this->connection_changed\( details\(\), connection_data_, static_cast< radio_t& >\( \*this \) \);', 'cb_connection_changed();', '*'),
     (r'this->template handle_connection_parameters_request< layout_t >\( pdu, write, details\(\) \)', 'll_handle_connection_parameters_request( pdu )', '*'),
     (r'this->handle_encryption_pdus\( opcode, size, pdu, write, commit \)', 'll_handle_encryption_pdus( opcode, size, &commit )', '*'),
-    (r'this->handle_phy_request\( opcode, size, pdu, write, \*this, commit \)', 'll_handle_phy_request( opcode, size, &commit )', '*'),
+    (r'this->handle_phy_request\( opcode, size, pdu, write, \*this, commit \)', 'll_handle_phy_request( self, opcode, size, &commit )', '*'),
     (r'signaling_channel_t::connection_parameter_update_request\(\s*proposed_interval_min_,\s*proposed_interval_max_,\s*proposed_latency_,\s*proposed_timeout_ \)', 'sc_connection_parameter_update_request()', '*'),
     (r'this->wake_up\(\);', 'll_wake_up();', '*'), (r'this->commit_ll_transmit_buffer\( write \);', 'll_commit_ll_transmit_buffer();', '*'),
     (r'procedure_timeout_ = delta_time\(\);', 'procedure_timeout_ = 0;', '*'),
@@ -45,7 +45,7 @@ EX = dict(BITS_EXTRACTS,
     features=dict(kind='text', body='text', file=LL, scope=[CLS, r'struct link_layer_feature\s*(?=\{)'], locate=r'enum : std::uint16_t \{[^}]*\}', no_members=True,
                   rules=[(r'enum : uint16_t \{', 'enum {', 1), (r'(?m)^(\s*)(\w+)(\s*=)', r'\1link_layer_feature_\2\3', '+')]),
     fields=dict(kind='fields', file=LL, scope=CLS, names=['procedure_timeout_', 'defered_conn_event_counter_', 'defered_ll_control_pdu_', 'used_features_', 'disconnecting_reason_',
-                'connection_parameters_request_running_', 'connection_parameters_request_use_signaling_channel_', 'version_indication_received_'],
+                'connection_parameters_request_running_', 'connection_parameters_request_use_signaling_channel_', 'version_indication_received_', 'version_indication_sent_', 'phy_update_request_running_'],
                 type_map={'delta_time': 'uint32_t', 'write_buffer': 'struct wbuf'}),
     control=dict(file=LL, locate=T + r'typename ' + Q + r'll_result ' + Q + r'handle_ll_control_data\( const write_buffer& pdu, read_buffer write \)', pre=PRE),
     pending=dict(file=LL, locate=T + r'typename ' + Q + r'll_result ' + Q + r'handle_pending_ll_control\( std::uint16_t instance \)', pre=PRE),
@@ -67,7 +67,7 @@ uint16_t G_counter;    /* connection_event_counter(): the event in which the PDU
 static inline uint16_t ll_connection_event_counter(void) { return G_counter; }
 struct l_rec { size_t fills, commits, version_cb, features_cb, rejected_cb, unknown_cb, changed_cb, cpr_calls, enc_calls, phy_calls, map_resets, parse_calls, pending_phy_calls; uint8_t tx[16]; size_t tx_len; uint8_t cb_arg; const uint8_t* map_arg; const uint8_t* parse_arg; };
 struct l_rec G_l;
-bool W_cpr_commit, W_enc_handled, W_enc_commit, W_phy_handled, W_phy_commit, W_sc_result, W_parse_ok, W_pending_phy;
+bool W_cpr_commit, W_enc_handled, W_enc_commit, W_phy_handled, W_phy_commit, W_sc_result, W_parse_ok, W_pending_phy, W_version_sent, W_phy_running;
 #define FL(i) G_l.tx[i] = (i) < n ? b[i] : 0;
 static inline void ll_fill(struct rbuf w, const uint8_t* b, size_t n) { ++G_l.fills; G_l.tx_len = n; FL(0) FL(1) FL(2) FL(3) FL(4) FL(5) FL(6) FL(7) FL(8) FL(9) FL(10) FL(11) FL(12) FL(13) FL(14) FL(15) }
 static inline void cb_version_indication_received(const uint8_t* d) { ++G_l.version_cb; }
@@ -77,7 +77,9 @@ static inline void cb_procedure_unknown(uint8_t e) { ++G_l.unknown_cb; G_l.cb_ar
 static inline void cb_connection_changed(void) { ++G_l.changed_cb; }
 static inline bool ll_handle_connection_parameters_request(const struct wbuf* p) { ++G_l.cpr_calls; return W_cpr_commit; }
 static inline bool ll_handle_encryption_pdus(uint8_t opcode, uint8_t size, bool* commit) { ++G_l.enc_calls; if (W_enc_handled) *commit = W_enc_commit; return W_enc_handled; }
-static inline bool ll_handle_phy_request(uint8_t opcode, uint8_t size, bool* commit) { ++G_l.phy_calls; if (W_phy_handled) *commit = W_phy_commit; return W_phy_handled; }
+/* handle_phy_request (under contract in unit events): an LL_PHY_UPDATE_IND that answers the PHY update procedure this side started ends the response time out, nothing else touches it */
+bool W_phy_ends_own;
+static inline bool ll_handle_phy_request(struct ll* self, uint8_t opcode, uint8_t size, bool* commit) { ++G_l.phy_calls; if (W_phy_handled) { *commit = W_phy_commit; if (W_phy_ends_own) { self->procedure_timeout_ = 0; self->phy_update_request_running_ = false; } } return W_phy_handled; }
 static inline bool sc_connection_parameter_update_request(void) { return W_sc_result; }
 static inline void ll_wake_up(void) {}
 static inline void ll_commit_ll_transmit_buffer(void) { ++G_l.commits; }
@@ -95,7 +97,7 @@ uint8_t G_deferred_mem[32];
 #define IS(op, n)  (HDR_LLID == 3 && OPCODE == (op) && SIZE == (n))
 #define U16(i)     ((uint16_t)(W_pdu[i] | (W_pdu[(i) + 1] << 8)))
 #define LL_PRE(self, pdu) (__CPROVER_is_fresh(self, sizeof(struct ll)) && __CPROVER_is_fresh(pdu, sizeof(struct wbuf)) && (pdu)->size == PDU_MEM && __CPROVER_is_fresh((pdu)->buffer, PDU_MEM) && PDU_TIE((pdu)->buffer) \
-   && (self)->version_indication_received_ == W_version_received && (self)->used_features_ == W_used && G_supported_features == W_supported && G_counter == W_counter \
+   && (self)->version_indication_received_ == W_version_received && (self)->version_indication_sent_ == W_version_sent && (self)->phy_update_request_running_ == W_phy_running && (self)->used_features_ == W_used && G_supported_features == W_supported && G_counter == W_counter \
    && (self)->connection_parameters_request_running_ == W_cpr_running && (self)->connection_parameters_request_use_signaling_channel_ == W_cpr_sc && (self)->procedure_timeout_ == W_timeout \
    && (self)->defered_ll_control_pdu_.buffer == 0 && (self)->defered_ll_control_pdu_.size == 0 && G_l.fills == 0 && G_l.commits == 0 && G_l.version_cb == 0 && G_l.features_cb == 0 && G_l.rejected_cb == 0 && G_l.unknown_cb == 0 \
    && G_l.cpr_calls == 0 && G_l.enc_calls == 0 && G_l.phy_calls == 0)
@@ -116,19 +118,29 @@ __CPROVER_requires(LL_PRE(self, pdu))
 __CPROVER_ensures(IS(LL_PING_REQ, 1) ==> (RESPONSE(1) && G_l.tx[2] == LL_PING_RSP))
 __CPROVER_ensures(IS(LL_FEATURE_REQ, 9) ==> (RESPONSE(9) && G_l.tx[2] == LL_FEATURE_RSP && G_l.tx[3] == (uint8_t)(W_used & U16(3)) && G_l.tx[4] == (uint8_t)(W_supported >> 8) && G_l.tx[5] == 0 && G_l.tx[6] == 0 && G_l.tx[7] == 0
     && G_l.tx[8] == 0 && G_l.tx[9] == 0 && G_l.tx[10] == 0 && self->used_features_ == (W_used & U16(3)) && G_l.features_cb == 1))
-/* one version indication per connection: the first is answered with the own LL_VERSION_IND, a repeated one is not answered with a second LL_VERSION_IND */
-__CPROVER_ensures((IS(LL_VERSION_IND, 6) && !W_version_received) ==> (RESPONSE(6) && G_l.tx[2] == LL_VERSION_IND && G_l.tx[3] == LL_VERSION_NR && G_l.tx[4] == (uint8_t)company_identifier && G_l.tx[5] == (uint8_t)(company_identifier >> 8)
-    && self->version_indication_received_ && G_l.version_cb == 1))
-__CPROVER_ensures(W_version_received ==> (self->version_indication_received_ && G_l.version_cb == 0 && !(G_l.commits == 1 && G_l.fills == 1 && G_l.tx[2] == LL_VERSION_IND)))
+/* a single version indication per connection: the first LL_VERSION_IND of the central is answered with the own LL_VERSION_IND - unless that was already sent (the central then ANSWERS the version
+   exchange this side started: nothing is sent, the response time out ends); a repeated one is not answered with a second LL_VERSION_IND; that the own indication was sent is remembered */
+#define FIRST_VERSION_IND (IS(LL_VERSION_IND, 6) && !W_version_received)
+__CPROVER_ensures((FIRST_VERSION_IND && !W_version_sent) ==> (RESPONSE(6) && G_l.tx[2] == LL_VERSION_IND && G_l.tx[3] == LL_VERSION_NR && G_l.tx[4] == (uint8_t)company_identifier && G_l.tx[5] == (uint8_t)(company_identifier >> 8)
+    && self->version_indication_received_ && self->version_indication_sent_ && G_l.version_cb == 1))
+__CPROVER_ensures((FIRST_VERSION_IND && W_version_sent) ==> (NO_RESPONSE && self->procedure_timeout_ == 0 && self->version_indication_received_ && G_l.version_cb == 1))
+__CPROVER_ensures(W_version_received ==> (self->version_indication_received_ && G_l.version_cb == 0))
+__CPROVER_ensures((W_version_received || W_version_sent) ==> (self->version_indication_sent_ == W_version_sent && !(G_l.commits == 1 && G_l.fills == 1 && G_l.tx[2] == LL_VERSION_IND)))
+__CPROVER_ensures(self->version_indication_sent_ == (W_version_sent || FIRST_VERSION_IND))
 /* responses and rejects are never answered; they are reported */
 __CPROVER_ensures((IS(LL_UNKNOWN_RSP, 2) || IS(LL_REJECT_IND, 2) || IS(LL_REJECT_EXT_IND, 3)) ==> (NO_RESPONSE && __CPROVER_return_value == ll_result_go_ahead && G_l.rejected_cb + G_l.unknown_cb == 1
     && (IS(LL_UNKNOWN_RSP, 2) ? (G_l.unknown_cb == 1 && G_l.cb_arg == W_pdu[3]) : (G_l.rejected_cb == 1 && G_l.cb_arg == (IS(LL_REJECT_IND, 2) ? W_pdu[3] : W_pdu[4])))))
 __CPROVER_ensures((HDR_LLID == 3 && OPCODE == LL_UNKNOWN_RSP) ==> NO_RESPONSE)
-/* the rejected / unknown procedure was the own connection parameter request: it is no longer waited for */
-__CPROVER_ensures(((IS(LL_REJECT_IND, 2) || ((IS(LL_UNKNOWN_RSP, 2) || IS(LL_REJECT_EXT_IND, 3)) && W_pdu[3] == LL_CONNECTION_PARAM_REQ))) ==> self->procedure_timeout_ == 0)
-/* ... and only then: the 40 s response time out of a running procedure is cleared by nothing else here but the first LL_VERSION_IND (frame) */
-#define CLEARS_TIMEOUT (IS(LL_REJECT_IND, 2) || ((IS(LL_UNKNOWN_RSP, 2) || IS(LL_REJECT_EXT_IND, 3)) && W_pdu[3] == LL_CONNECTION_PARAM_REQ) || (IS(LL_VERSION_IND, 6) && !W_version_received))
-__CPROVER_ensures(!CLEARS_TIMEOUT ==> (self->procedure_timeout_ == W_timeout && self->connection_parameters_request_running_ == W_cpr_running && self->connection_parameters_request_use_signaling_channel_ == W_cpr_sc))
+/* the rejected / unknown procedure was the own connection parameter request or the own PHY request: it is no longer waited for */
+#define NAMES_REQUEST(op) ((IS(LL_UNKNOWN_RSP, 2) || IS(LL_REJECT_EXT_IND, 3)) && W_pdu[3] == (op))
+__CPROVER_ensures((IS(LL_REJECT_IND, 2) || NAMES_REQUEST(LL_CONNECTION_PARAM_REQ)) ==> self->procedure_timeout_ == 0)
+__CPROVER_ensures((W_phy_running && (IS(LL_REJECT_IND, 2) || NAMES_REQUEST(LL_PHY_REQ))) ==> (self->procedure_timeout_ == 0 && !self->phy_update_request_running_))
+/* ... and only then: the 40 s response time out of a running procedure is ended by nothing else but the ANSWER to it - the central's LL_VERSION_IND if this side has sent its own, the
+   LL_PHY_UPDATE_IND if this side has sent LL_PHY_REQ (handle_phy_request), the rejects above. In particular a version indication or PHY update the central starts itself leaves it running (frame) */
+#define CLEARS_TIMEOUT (IS(LL_REJECT_IND, 2) || NAMES_REQUEST(LL_CONNECTION_PARAM_REQ) || (W_phy_running && NAMES_REQUEST(LL_PHY_REQ)) || (FIRST_VERSION_IND && W_version_sent) \
+    || (ELSE_CHAIN && !W_enc_handled && W_phy_handled && W_phy_ends_own))
+__CPROVER_ensures(!CLEARS_TIMEOUT ==> (self->procedure_timeout_ == W_timeout && self->connection_parameters_request_running_ == W_cpr_running && self->connection_parameters_request_use_signaling_channel_ == W_cpr_sc
+    && self->phy_update_request_running_ == W_phy_running))
 /* requests decided elsewhere: connection parameter request (its own handler decides about the answer), encryption (C28), PHY */
 __CPROVER_ensures(IS(LL_CONNECTION_PARAM_REQ, 24) ==> (G_l.cpr_calls == 1 && G_l.commits == (W_cpr_commit ? 1 : 0)))
 __CPROVER_ensures(ELSE_CHAIN ==> (G_l.enc_calls == 1 && (W_enc_handled ? (G_l.phy_calls == 0 && G_l.commits == (W_enc_commit ? 1 : 0)) : (G_l.phy_calls == 1 && (W_phy_handled ==> G_l.commits == (W_phy_commit ? 1 : 0))))))
@@ -166,9 +178,9 @@ __CPROVER_assigns(__CPROVER_object_whole(self), G_l)
 {{pending}}
 #define SETUP struct ll* s; struct wbuf* p; struct rbuf w; for (int k = 0; k < 32; ++k) { W_pdu[k] = nondet_u8(); G_deferred_mem[k] = W_pdu[k]; } W_counter = nondet_u16(); G_counter = W_counter; W_instant_pending = nondet_u16(); W_version_received = nondet_bool(); W_pending = nondet_bool(); \
   W_used = nondet_u16(); W_supported = nondet_u16(); G_supported_features = W_supported; W_cpr_running = nondet_bool(); W_cpr_sc = nondet_bool(); W_timeout = nondet_u32(); W_cpr_commit = nondet_bool(); W_enc_handled = nondet_bool(); W_enc_commit = nondet_bool(); \
-  W_phy_handled = nondet_bool(); W_phy_commit = nondet_bool(); W_sc_result = nondet_bool(); W_parse_ok = nondet_bool(); W_pending_phy = nondet_bool(); G_l = (struct l_rec){ 0 }; \
+  W_phy_handled = nondet_bool(); W_phy_commit = nondet_bool(); W_sc_result = nondet_bool(); W_parse_ok = nondet_bool(); W_pending_phy = nondet_bool(); W_version_sent = nondet_bool(); W_phy_running = nondet_bool(); W_phy_ends_own = nondet_bool(); G_l = (struct l_rec){ 0 }; \
   /* what the two other handlers accept is their own contract (C28; PHY): encryption PDUs 0x03, 0x06, 0x0A, 0x0B, PHY PDUs 0x16, 0x18 */ \
-  __CPROVER_assume((!W_enc_handled || W_pdu[2] == 0x03 || W_pdu[2] == 0x06 || W_pdu[2] == 0x0A || W_pdu[2] == 0x0B) && (!W_phy_handled || W_pdu[2] == 0x16 || W_pdu[2] == 0x18)); BT_KNOWN_EXCLUDE()
+  __CPROVER_assume((!W_enc_handled || W_pdu[2] == 0x03 || W_pdu[2] == 0x06 || W_pdu[2] == 0x0A || W_pdu[2] == 0x0B) && (!W_phy_handled || W_pdu[2] == 0x16 || W_pdu[2] == 0x18) && (!W_phy_ends_own || (W_phy_running && W_pdu[2] == LL_PHY_UPDATE_IND))); BT_KNOWN_EXCLUDE()
 void h_handle_ll_control_data(void) { SETUP; handle_ll_control_data(s, p, w); BT_CANARY(); }
 void h_handle_pending_ll_control(void) { SETUP; handle_pending_ll_control(s, nondet_u16()); BT_CANARY(); }
 '''
